@@ -21,12 +21,17 @@ def load(kind='fast'):
                 k, v = l.split('=', 1)
                 d[k] = v
         et = d.get('EditorType')
-        o = {'default': d.get('ValueDefault', ''), 'min': None, 'max': None, 'choices': None}
+        o = {'default': d.get('ValueDefault', ''), 'min': None, 'max': None, 'choices': None, 'cat': int(d.get('Category', -1)),
+             'desc': d.get('Description', '')}
         if et == 'multiple':
-            ch = d['Choices'].split('|')
+            ch = d['Choices'].strip('"').split('|')
             o['name'] = ch[0].split('=')[0]
             o['choices'] = [c.split('=')[1] for c in ch]
             o['type'] = 'enum'
+            if all(c.isdigit() for c in o['choices']):     # e.g. indent_with_tabs: a bounded number shown as a choice
+                o['type'] = 'num'
+                o['min'], o['max'] = min(map(int, o['choices'])), max(map(int, o['choices']))
+                o['choices'] = None
         elif et == 'boolean':
             o['name'] = d['TrueFalse'].split('=')[0]
             o['choices'] = ['true', 'false']
